@@ -100,7 +100,7 @@ def rule_rule_keyed(ctx, rep):
               "findings handed to the transformer are not exactly results_for_rule_and_file(context, rule, filename) for rule in rules "
               "(findings of other rules or other files would drive the fix)")
     applies = applies0
-    from ..logic import consistent_assignments
+    from ..logic import consistent_assignments_state
 
     for c in applies:
         findings_arg = c.args[2] if len(c.args) >= 3 else next((k.value for k in c.keywords if k.arg == "results"), None)
@@ -125,7 +125,7 @@ def rule_rule_keyed(ctx, rep):
                     return x
             return None
 
-        combos = consistent_assignments(fa.must_at(c), atom, ["RESULTS_NONE", "FINDINGS"])
+        combos = consistent_assignments_state(fa.state_at(c), atom, ["RESULTS_NONE", "FINDINGS"])
         bad = [x for x in combos if x["RESULTS_NONE"] is False and x["FINDINGS"] is False]
         passes = fvar is not None and len(c.args) >= 2 and unparse(c.args[1]) == "file_context"
         # the findings handed over are the per-file list built above
